@@ -20,8 +20,11 @@ package main
 import (
 	"context"
 	"encoding/binary"
+	"encoding/hex"
+	"encoding/json"
 	"fmt"
 	"math/big"
+	"os"
 	"sort"
 	"strconv"
 	"strings"
@@ -354,6 +357,18 @@ func (g *gen) partBloom(n int) {
 			return fmt.Sprintf("%d,%d,%d", ix[0], ix[1], ix[2])
 		}))
 	}
+	{ // deterministic probe: an address with a leading zero byte is covered for BloomLookup; TestBytes denies it (known quirk)
+		z := itX(append([]byte{0}, poolA[0][1:]...))
+		rc := types.NewReceipt(nil, false, 0)
+		rc.Logs = []*types.Log{{Address: common.BytesToAddress(z.b)}}
+		b := types.CreateBloom(types.Receipts{rc})
+		run.Case("lk "+bloomHex(b)+" "+z.tok, strconv.FormatBool(types.BloomLookup(b, common.BytesToAddress(z.b))))
+		run.Case("tb "+bloomHex(b)+" "+z.tok, strconv.FormatBool(b.TestBytes(z.b)))
+		if !types.BloomLookup(b, common.BytesToAddress(z.b)) {
+			run.Violate("bloom-false-negative", "bloom-false-negative", "probe "+z.tok, "leading-zero address not covered for BloomLookup")
+		}
+		run.Notes["testbytes_leading_zero_false_negative"] = !b.TestBytes(z.b)
+	}
 	for i := 0; i < n; i++ {
 		rs := g.receipts(uint64(i * 100))
 		real := rs.real(7)
@@ -376,9 +391,23 @@ func (g *gen) partBloom(n int) {
 					} else {
 						bb = common.BytesToHash(it.b)
 					}
-					if !types.BloomLookup(hdr, bb) || !types.BloomLookup(rb, bb) || !types.BloomLookup(lb, bb) ||
-						!hdr.TestBytes(bb.Bytes()) || !hdr.Test(new(big.Int).SetBytes(bb.Bytes())) {
+					if !types.BloomLookup(hdr, bb) || !types.BloomLookup(rb, bb) || !types.BloomLookup(lb, bb) {
 						run.Violate("bloom-false-negative", "bloom-false-negative", "cb "+rs.tok()+" item "+it.tok, "an item of a covered log tests negative")
+					}
+					// Bloom.TestBytes/Test hash big.Int.Bytes() (leading zero bytes dropped): only items without a leading
+					// zero byte are required to test positive there (see testBytes_leading_zero_witness); both are compared
+					// with the model in any case.
+					tb := hdr.TestBytes(bb.Bytes())
+					run.Count("op:tb")
+					run.Case("tb "+bloomHex(hdr)+" "+it.tok, strconv.FormatBool(tb))
+					if tb != hdr.Test(new(big.Int).SetBytes(bb.Bytes())) {
+						run.Violate("testbytes-differs-from-test", "testbytes-differs-from-test", "tb "+it.tok, "TestBytes != Test")
+					}
+					if len(bb.Bytes()) > 0 && bb.Bytes()[0] != 0 && !tb {
+						run.Violate("bloom-false-negative", "bloom-false-negative-testbytes", "cb "+rs.tok()+" item "+it.tok, "TestBytes negative on a covered item without leading zero")
+					}
+					if !tb {
+						run.Count("tb:false-negative-leading-zero")
 					}
 				}
 			}
@@ -948,6 +977,137 @@ type chainSpec struct {
 	size, sections, nblocks int
 }
 
+// chainData: one generated chain (genesis + nblocks blocks; logs only in the listed blocks) and the index progress to attempt.
+type chainData struct {
+	size, attempted, nblocks int
+	blocks                   map[int]receiptSet
+	nums                     []int
+}
+
+func (cd chainData) line() string {
+	var btoks []string
+	for _, n := range cd.nums {
+		btoks = append(btoks, fmt.Sprintf("%d=%s", n, cd.blocks[n].tok()))
+	}
+	bt := "-"
+	if len(btoks) > 0 {
+		bt = strings.Join(btoks, "&")
+	}
+	return fmt.Sprintf("chain %d %d %d %s", cd.size, cd.attempted, cd.nblocks+1, bt)
+}
+
+// materialize builds the chain with the repository's block builder (header bloom = CreateBloom(receipts) in NewBlock), stores it
+// with its receipts, commits the bloom-bits index for the attempted progress and emits the `chain` case.
+func (g *gen) materialize(cd chainData, d *dropper) (*backend, string) {
+	run := g.run
+	db := aquadb.NewMemDatabase()
+	genesis := core.GenesisBlockForTesting(db, common.Address{1}, big.NewInt(1000000))
+	chain, receipts := core.GenerateChain(context.TODO(), params.TestChainConfig, genesis, aquahash.NewFaker(), db, cd.nblocks, func(i int, bg *core.BlockGen) {
+		if rs, ok := cd.blocks[i+1]; ok {
+			for _, rc := range rs.real(uint64(i + 1)) {
+				bg.AddUncheckedReceipt(rc)
+			}
+		}
+	})
+	for i, block := range chain {
+		core.WriteBlock(db, block)
+		core.WriteCanonicalHash(db, block.Hash(), block.NumberU64())
+		core.WriteHeadBlockHash(db, block.Hash())
+		core.WriteBlockReceipts(db, block.Hash(), block.NumberU64(), receipts[i])
+		// the header bloom the chain carries must be the bloom of its receipts (what ValidateState enforces)
+		if block.Bloom() != types.CreateBloom(receipts[i]) {
+			run.Violate("header-bloom", "header-bloom", fmt.Sprintf("%s block %d", cd.line(), block.NumberU64()), "header bloom != CreateBloom(receipts)")
+		}
+	}
+	sections := cd.attempted
+	status := "ok"
+	if sections > 0 && !commitIndex(db, uint64(cd.size), uint64(sections)) {
+		status = "generr" // the indexer cannot commit: progress stays 0, queries are served by the header scan
+		sections = 0
+	}
+	chainLine := cd.line()
+	run.Count("op:chain")
+	run.Count("chain-index:" + status)
+	run.Count(fmt.Sprintf("chain-size:%d", cd.size))
+	run.Count(fmt.Sprintf("chain-sections:%d", sections))
+	run.Case(chainLine, status)
+	return &backend{db: db, size: uint64(cd.size), sections: uint64(sections), d: d, mux: new(event.TypeMux), feed: new(event.Feed)}, chainLine
+}
+
+// query runs one Filter.Logs on the real code, emits the `q` case and judges it against the brute-force scan (J4).
+func (g *gen) query(be *backend, cd chainData, chainLine string, begin, end int64, c crit) {
+	run := g.run
+	head := cd.nblocks
+	indexed := int(be.sections) * cd.size
+	line := fmt.Sprintf("q %d %d %s", begin, end, c.tok())
+	run.Current(line)
+	as, ts := c.real()
+	var ids []uint64
+	status := hx.Safe(func() string {
+		ctx, cancel := context.WithTimeout(context.Background(), 30*time.Second)
+		defer cancel()
+		f := filters.New(be, begin, end, as, ts)
+		logs, err := f.Logs(ctx)
+		if err != nil {
+			if ctx.Err() != nil {
+				return "hang"
+			}
+			return "err"
+		}
+		for _, l := range logs {
+			ids = append(ids, logID(l))
+		}
+		return ""
+	})
+	run.Count("op:q")
+	if status != "" {
+		if strings.HasPrefix(status, "panic") {
+			status = "panic"
+		}
+		run.Violate(status, "logs-"+status, chainLine+" ## "+line, "Filter.Logs outcome "+status)
+		run.Case(line, status)
+		return
+	}
+	b, e := begin, end
+	if b == -1 {
+		b = int64(head)
+	}
+	if e == -1 {
+		e = int64(head)
+	}
+	var wantIDs []uint64
+	for _, n := range cd.nums {
+		if int64(n) < b || int64(n) > e {
+			continue
+		}
+		for _, r := range cd.blocks[n] {
+			for _, l := range r {
+				if specMatch(c, l) {
+					wantIDs = append(wantIDs, l.id)
+				}
+			}
+		}
+	}
+	switch {
+	case indexed > 0 && b < int64(indexed) && e >= int64(indexed):
+		run.Count("q-range:straddles-boundary")
+	case indexed > 0 && b < int64(indexed):
+		run.Count("q-range:indexed-only")
+	default:
+		run.Count("q-range:unindexed-only")
+	}
+	if begin == -1 || end == -1 {
+		run.Count("q-range:open-end")
+	}
+	if len(ids) > 0 {
+		run.Count("q:nonempty")
+	}
+	run.Case(line, idsTok(ids))
+	if idsTok(ids) != idsTok(wantIDs) {
+		run.Violate("logs-not-exact", "logs-not-exact", chainLine+" ## "+line, "Filter.Logs="+idsTok(ids)+" bruteforce="+idsTok(wantIDs))
+	}
+}
+
 func (g *gen) partChains(specs []chainSpec, nq int) {
 	run := g.run
 	d := &dropper{r: g.r.Fork(77)}
@@ -978,65 +1138,21 @@ func (g *gen) partChains(specs []chainSpec, nq int) {
 				want[n] = true
 			}
 		}
-		blocks := map[int]receiptSet{}
+		cd := chainData{size: size, attempted: sp.sections, nblocks: nblocks, blocks: map[int]receiptSet{}}
 		var allLogs []lg
 		for n := range want {
-			_ = n
+			cd.nums = append(cd.nums, n)
 		}
-		nums := make([]int, 0, len(want))
-		for n := range want {
-			nums = append(nums, n)
-		}
-		sort.Ints(nums)
-		for _, n := range nums {
+		sort.Ints(cd.nums)
+		for _, n := range cd.nums {
 			rs := g.receipts(uint64(n) * 100)
-			blocks[n] = rs
+			cd.blocks[n] = rs
 			for _, r := range rs {
 				allLogs = append(allLogs, r...)
 			}
 		}
-		// build the chain with the repository's block builder (header bloom = CreateBloom(receipts) in NewBlock)
-		db := aquadb.NewMemDatabase()
-		genesis := core.GenesisBlockForTesting(db, common.Address{1}, big.NewInt(1000000))
-		chain, receipts := core.GenerateChain(context.TODO(), params.TestChainConfig, genesis, aquahash.NewFaker(), db, nblocks, func(i int, bg *core.BlockGen) {
-			if rs, ok := blocks[i+1]; ok {
-				for _, rc := range rs.real(uint64(i + 1)) {
-					bg.AddUncheckedReceipt(rc)
-				}
-			}
-		})
-		for i, block := range chain {
-			core.WriteBlock(db, block)
-			core.WriteCanonicalHash(db, block.Hash(), block.NumberU64())
-			core.WriteHeadBlockHash(db, block.Hash())
-			core.WriteBlockReceipts(db, block.Hash(), block.NumberU64(), receipts[i])
-			// the header bloom the chain carries must be the bloom of its receipts (what ValidateState enforces)
-			if block.Bloom() != types.CreateBloom(receipts[i]) {
-				run.Violate("header-bloom", "header-bloom", fmt.Sprintf("chain %d block %d", ci, block.NumberU64()), "header bloom != CreateBloom(receipts)")
-			}
-		}
-		sections := sp.sections
-		status := "ok"
-		if sections > 0 && !commitIndex(db, uint64(size), uint64(sections)) {
-			status = "generr" // the indexer cannot commit: progress stays 0, queries are served by the header scan
-			sections = 0
-		}
-		var btoks []string
-		for _, n := range nums {
-			btoks = append(btoks, fmt.Sprintf("%d=%s", n, blocks[n].tok()))
-		}
-		bt := "-"
-		if len(btoks) > 0 {
-			bt = strings.Join(btoks, "&")
-		}
-		chainLine := fmt.Sprintf("chain %d %d %d %s", size, sp.sections, nblocks+1, bt)
-		run.Count("op:chain")
-		run.Count("chain-index:" + status)
-		run.Count(fmt.Sprintf("chain-size:%d", size))
-		run.Count(fmt.Sprintf("chain-sections:%d", sections))
-		run.Case(chainLine, status)
-		be := &backend{db: db, size: uint64(size), sections: uint64(sections), d: d, mux: new(event.TypeMux), feed: new(event.Feed)}
-		indexed := sections * size
+		be, chainLine := g.materialize(cd, d)
+		indexed := int(be.sections) * size
 		for qi := 0; qi < nq; qi++ {
 			var from *lg
 			if len(allLogs) > 0 && g.r.Intn(4) != 0 {
@@ -1077,76 +1193,190 @@ func (g *gen) partChains(specs []chainSpec, nq int) {
 			if begin < -1 {
 				begin = 0
 			}
-			line := fmt.Sprintf("q %d %d %s", begin, end, c.tok())
-			run.Current(line)
-			as, ts := c.real()
-			var ids []uint64
-			status := hx.Safe(func() string {
-				ctx, cancel := context.WithTimeout(context.Background(), 30*time.Second)
-				defer cancel()
-				f := filters.New(be, begin, end, as, ts)
-				logs, err := f.Logs(ctx)
-				if err != nil {
-					if ctx.Err() != nil {
-						return "hang"
-					}
-					return "err"
-				}
-				for _, l := range logs {
-					ids = append(ids, logID(l))
-				}
-				return ""
-			})
-			run.Count("op:q")
-			if status != "" {
-				if strings.HasPrefix(status, "panic") {
-					status = "panic"
-				}
-				run.Violate(status, "logs-"+status, chainLine+" ## "+line, "Filter.Logs outcome "+status)
-				run.Case(line, status)
-				continue
-			}
-			// J4: brute force over the generated canonical receipts
-			b, e := begin, end
-			if b == -1 {
-				b = int64(head)
-			}
-			if e == -1 {
-				e = int64(head)
-			}
-			var wantIDs []uint64
-			for _, n := range nums {
-				if int64(n) < b || int64(n) > e {
-					continue
-				}
-				for _, r := range blocks[n] {
-					for _, l := range r {
-						if specMatch(c, l) {
-							wantIDs = append(wantIDs, l.id)
-						}
-					}
-				}
-			}
-			switch {
-			case indexed > 0 && b < int64(indexed) && e >= int64(indexed):
-				run.Count("q-range:straddles-boundary")
-			case indexed > 0 && b < int64(indexed):
-				run.Count("q-range:indexed-only")
-			default:
-				run.Count("q-range:unindexed-only")
-			}
-			if begin == -1 || end == -1 {
-				run.Count("q-range:open-end")
-			}
-			if len(ids) > 0 {
-				run.Count("q:nonempty")
-			}
-			run.Case(line, idsTok(ids))
-			if idsTok(ids) != idsTok(wantIDs) {
-				run.Violate("logs-not-exact", "logs-not-exact", chainLine+" ## "+line, "Filter.Logs="+idsTok(ids)+" bruteforce="+idsTok(wantIDs))
-			}
+			g.query(be, cd, chainLine, begin, end, c)
 		}
 		run.Notes[fmt.Sprintf("chain%d_s", ci)] = fmt.Sprintf("%.1f", time.Since(t0).Seconds())
+	}
+}
+
+// ---------------------------------------------------------------------------------------------------------------------
+// replay of a recorded `chain … ## q …` input (check.py --replay FILE): the chain is rebuilt from its line and the one query
+// is run against the real code again. Other kinds of replay files re-run the whole (seed-deterministic) generation.
+
+func parseItemTok(t string) (item, bool) {
+	if len(t) == 0 {
+		return item{}, false
+	}
+	switch t[0] {
+	case 'A', 'T':
+		i, err := strconv.Atoi(t[1:])
+		if err != nil || i < 0 {
+			return item{}, false
+		}
+		if t[0] == 'A' && i < len(poolA) {
+			return itA(i), true
+		}
+		if t[0] == 'T' && i < len(poolT) {
+			return itT(i), true
+		}
+		return item{}, false
+	case 'x':
+		b, err := hex.DecodeString(t[1:])
+		if err != nil {
+			return item{}, false
+		}
+		return itX(b), true
+	}
+	return item{}, false
+}
+
+func parseItemsTok(s string) ([]item, bool) {
+	var out []item
+	for _, t := range strings.Split(s, ",") {
+		it, ok := parseItemTok(t)
+		if !ok {
+			return nil, false
+		}
+		out = append(out, it)
+	}
+	return out, true
+}
+
+func parseReceiptsTok(s string) (receiptSet, bool) {
+	if s == "-" {
+		return nil, true
+	}
+	var rs receiptSet
+	for _, r := range strings.Split(s, "|") {
+		var logs []lg
+		if r != "_" {
+			for _, lt := range strings.Split(r, ";") {
+				f := strings.Split(lt, ":")
+				if len(f) != 3 || len(f[0]) < 2 {
+					return nil, false
+				}
+				id, err := strconv.ParseUint(f[0][1:], 10, 64)
+				ad, ok := parseItemTok(f[1])
+				if err != nil || !ok {
+					return nil, false
+				}
+				l := lg{id: id, zero: f[0][0] == 'z', addr: ad}
+				if f[2] != "" {
+					ts, ok := parseItemsTok(f[2])
+					if !ok {
+						return nil, false
+					}
+					l.topics = ts
+				}
+				logs = append(logs, l)
+			}
+		}
+		rs = append(rs, logs)
+	}
+	return rs, true
+}
+
+func parseCritTok(a, t string) (crit, bool) {
+	var c crit
+	if a != "-" {
+		as, ok := parseItemsTok(a)
+		if !ok {
+			return c, false
+		}
+		c.addrs = as
+	}
+	if t != "-" {
+		for _, p := range strings.Split(t, "/") {
+			if p == "*" {
+				c.topics = append(c.topics, nil)
+				continue
+			}
+			ts, ok := parseItemsTok(p)
+			if !ok {
+				return c, false
+			}
+			c.topics = append(c.topics, ts)
+		}
+	}
+	return c, true
+}
+
+func (g *gen) replay(input string) bool {
+	parts := strings.Split(input, " ## ")
+	if len(parts) < 2 {
+		return false
+	}
+	cf := strings.Fields(parts[0])
+	if len(cf) != 5 || cf[0] != "chain" {
+		return false
+	}
+	size, e1 := strconv.Atoi(cf[1])
+	att, e2 := strconv.Atoi(cf[2])
+	nb, e3 := strconv.Atoi(cf[3])
+	if e1 != nil || e2 != nil || e3 != nil || nb < 1 {
+		return false
+	}
+	type qq struct {
+		b, e int64
+		c    crit
+	}
+	var qs []qq
+	for _, qp := range parts[1:] {
+		qf := strings.Fields(qp)
+		if len(qf) != 5 || qf[0] != "q" {
+			return false
+		}
+		begin, e4 := strconv.ParseInt(qf[1], 10, 64)
+		end, e5 := strconv.ParseInt(qf[2], 10, 64)
+		c, ok := parseCritTok(qf[3], qf[4])
+		if e4 != nil || e5 != nil || !ok {
+			return false
+		}
+		qs = append(qs, qq{begin, end, c})
+	}
+	cd := chainData{size: size, attempted: att, nblocks: nb - 1, blocks: map[int]receiptSet{}}
+	if cf[4] != "-" {
+		for _, bt := range strings.Split(cf[4], "&") {
+			kv := strings.SplitN(bt, "=", 2)
+			if len(kv) != 2 {
+				return false
+			}
+			n, err := strconv.Atoi(kv[0])
+			rs, ok := parseReceiptsTok(kv[1])
+			if err != nil || !ok {
+				return false
+			}
+			cd.blocks[n] = rs
+			cd.nums = append(cd.nums, n)
+		}
+	}
+	be, chainLine := g.materialize(cd, &dropper{r: g.r.Fork(77)})
+	for _, q := range qs {
+		g.query(be, cd, chainLine, q.b, q.e, q.c)
+	}
+	return true
+}
+
+// corpus: boundary seeds and minimised past disagreements, `chain … ## q … ## q …` per line; always run first.
+func (g *gen) corpus() {
+	dir := os.Getenv("VERIF_ROOT")
+	if dir == "" {
+		return
+	}
+	b, err := os.ReadFile(dir + "/corpus/C16/seeds.txt")
+	if err != nil {
+		return
+	}
+	for _, line := range strings.Split(string(b), "\n") {
+		line = strings.TrimSpace(line)
+		if line == "" || strings.HasPrefix(line, "#") {
+			continue
+		}
+		if g.replay(line) {
+			g.run.Count("corpus:lines")
+		} else {
+			g.run.Count("corpus:unparsed")
+		}
 	}
 }
 
@@ -1175,6 +1405,22 @@ func main() {
 	}
 	run.Case("pool "+strings.Join(as, ",")+" "+strings.Join(tsx, ","), "ok")
 
+	if run.Replay != "" {
+		var rec struct {
+			Input interface{} `json:"input"`
+		}
+		if b, err := os.ReadFile(run.Replay); err == nil && json.Unmarshal(b, &rec) == nil {
+			if in, ok := rec.Input.(string); ok {
+				if (&gen{r: rng.Fork(5), run: run}).replay(in) {
+					run.Notes["replayed"] = "chain+query"
+					run.Finish()
+					return
+				}
+			}
+		}
+		run.Notes["replayed"] = "full run (the recorded kind is regenerated from the seed)"
+	}
+	(&gen{r: rng.Fork(6), run: run}).corpus()
 	g := &gen{r: rng.Fork(2), run: run}
 	if run.Thorough() {
 		g.partBloom(3000)
